@@ -15,8 +15,8 @@ use crate::chess::square::Square;
 use crate::chess::moves::Move;
 use crate::engine::search::move_ordering;
 
-pub const NC: usize = 4; // bound on the number of generated captures
-pub const NQ: usize = 4; // bound on the number of generated quiets
+pub const NC: usize = 3; // bound on the number of generated captures
+pub const NQ: usize = 3; // bound on the number of generated quiets
 
 // ---- ghost stand-ins for the types the body only reads through the callees below ----
 pub struct GhostEntry {
@@ -95,9 +95,9 @@ fn score_quiet(_game: &Game, _mv: Move, _h: &GhostHist) -> i32 {
 
 // ---- the picker itself: struct, stage enum and the whole impl block are copied VERBATIM from /repo on every run.
 // In this module the names MoveList / MovegenCache / MAX_MOVES are bound to small stand-ins, so the picker's list is a
-// bounded vector of capacity 8 (ASSUMED: ArrayVec<Move, 218> behaves as a bounded vector -- len/get/push/swap -- and the
+// bounded vector of capacity 6 (ASSUMED: ArrayVec<Move, 218> behaves as a bounded vector -- len/get/push/swap -- and the
 // real capacity 218 <= MAX_MOVES = 255 score slots, checked by C10.capacity).
-pub const LIST_CAP: usize = 8;
+pub const LIST_CAP: usize = 6;
 const MAX_MOVES: usize = LIST_CAP;
 pub struct MovegenCache;
 impl MovegenCache {
@@ -520,7 +520,7 @@ fn step_from(loud: bool, fixed_stage: Option<u8>) {
 macro_rules! step_stage {
     ($name:ident, $st:expr, $some:expr) => {
         #[kani::proof]
-        #[kani::unwind(10)]
+        #[kani::unwind(8)]
         fn $name() {
             step_from(false, Some($st));
             unsafe {
@@ -530,113 +530,113 @@ macro_rules! step_stage {
     };
 }
 //@ obligation: C10.step.full.BestMove
-//@ domain: bounded(<= 4 captures + <= 4 quiets per node; unbounded in the number of calls)
+//@ domain: bounded(<= 3 captures + <= 3 quiets per node; unbounded in the number of calls)
 //@ harness: vk_c10_step_full_s0
 //@ functions: engine/search/move_picker.rs::MovePicker::next, engine/search/move_picker.rs::MovePicker::next_best_move
 //@ timeout: 2400
 //@ mem_gb: 8
 //@ note: inductive step of 'the stream is exactly the generated moves, each once', for a call that STARTS in stage BestMove: from ANY picker state of that stage satisfying the structural invariant (any cursor positions, list order, scores), any hash move (in the lists or none), ARBITRARY killers / counter move / previous move: next either hands out a generated move that had not been handed out and marks exactly that move, or returns None with every generated move handed out; the invariant is re-established; unreachable!() and out-of-range indices are unreachable.  The eleven stage obligations together are the step for every state.
-//@ assumes: callee contracts of generate_captures / generate_quiets (C01: duplicate-free lists, classes disjoint); ArrayVec modelled as a bounded vector of capacity 8; base case C10.step.initial
+//@ assumes: callee contracts of generate_captures / generate_quiets (C01: duplicate-free lists, classes disjoint); ArrayVec modelled as a bounded vector of capacity 6; base case C10.step.initial
 step_stage!(vk_c10_step_full_s0, 0, true);
 //@ obligation: C10.step.full.GenCaptures
-//@ domain: bounded(<= 4 captures + <= 4 quiets per node; unbounded in the number of calls)
+//@ domain: bounded(<= 3 captures + <= 3 quiets per node; unbounded in the number of calls)
 //@ harness: vk_c10_step_full_s1
 //@ functions: engine/search/move_picker.rs::MovePicker::next, engine/search/move_picker.rs::MovePicker::next_best_move
 //@ timeout: 2400
 //@ mem_gb: 8
 //@ note: inductive step of 'the stream is exactly the generated moves, each once', for a call that STARTS in stage GenCaptures: from ANY picker state of that stage satisfying the structural invariant (any cursor positions, list order, scores), any hash move (in the lists or none), ARBITRARY killers / counter move / previous move: next either hands out a generated move that had not been handed out and marks exactly that move, or returns None with every generated move handed out; the invariant is re-established; unreachable!() and out-of-range indices are unreachable.  The eleven stage obligations together are the step for every state.
-//@ assumes: callee contracts of generate_captures / generate_quiets (C01: duplicate-free lists, classes disjoint); ArrayVec modelled as a bounded vector of capacity 8; base case C10.step.initial
+//@ assumes: callee contracts of generate_captures / generate_quiets (C01: duplicate-free lists, classes disjoint); ArrayVec modelled as a bounded vector of capacity 6; base case C10.step.initial
 step_stage!(vk_c10_step_full_s1, 1, true);
 //@ obligation: C10.step.full.GoodCaptures
-//@ domain: bounded(<= 4 captures + <= 4 quiets per node; unbounded in the number of calls)
+//@ domain: bounded(<= 3 captures + <= 3 quiets per node; unbounded in the number of calls)
 //@ harness: vk_c10_step_full_s2
 //@ functions: engine/search/move_picker.rs::MovePicker::next, engine/search/move_picker.rs::MovePicker::next_best_move
 //@ timeout: 2400
 //@ mem_gb: 8
 //@ note: inductive step of 'the stream is exactly the generated moves, each once', for a call that STARTS in stage GoodCaptures: from ANY picker state of that stage satisfying the structural invariant (any cursor positions, list order, scores), any hash move (in the lists or none), ARBITRARY killers / counter move / previous move: next either hands out a generated move that had not been handed out and marks exactly that move, or returns None with every generated move handed out; the invariant is re-established; unreachable!() and out-of-range indices are unreachable.  The eleven stage obligations together are the step for every state.
-//@ assumes: callee contracts of generate_captures / generate_quiets (C01: duplicate-free lists, classes disjoint); ArrayVec modelled as a bounded vector of capacity 8; base case C10.step.initial
+//@ assumes: callee contracts of generate_captures / generate_quiets (C01: duplicate-free lists, classes disjoint); ArrayVec modelled as a bounded vector of capacity 6; base case C10.step.initial
 step_stage!(vk_c10_step_full_s2, 2, true);
 //@ obligation: C10.step.full.GenQuiets
-//@ domain: bounded(<= 4 captures + <= 4 quiets per node; unbounded in the number of calls)
+//@ domain: bounded(<= 3 captures + <= 3 quiets per node; unbounded in the number of calls)
 //@ harness: vk_c10_step_full_s3
 //@ functions: engine/search/move_picker.rs::MovePicker::next, engine/search/move_picker.rs::MovePicker::next_best_move
 //@ timeout: 2400
 //@ mem_gb: 8
 //@ note: inductive step of 'the stream is exactly the generated moves, each once', for a call that STARTS in stage GenQuiets: from ANY picker state of that stage satisfying the structural invariant (any cursor positions, list order, scores), any hash move (in the lists or none), ARBITRARY killers / counter move / previous move: next either hands out a generated move that had not been handed out and marks exactly that move, or returns None with every generated move handed out; the invariant is re-established; unreachable!() and out-of-range indices are unreachable.  The eleven stage obligations together are the step for every state.
-//@ assumes: callee contracts of generate_captures / generate_quiets (C01: duplicate-free lists, classes disjoint); ArrayVec modelled as a bounded vector of capacity 8; base case C10.step.initial
+//@ assumes: callee contracts of generate_captures / generate_quiets (C01: duplicate-free lists, classes disjoint); ArrayVec modelled as a bounded vector of capacity 6; base case C10.step.initial
 step_stage!(vk_c10_step_full_s3, 3, true);
 //@ obligation: C10.step.full.Killer1
-//@ domain: bounded(<= 4 captures + <= 4 quiets per node; unbounded in the number of calls)
+//@ domain: bounded(<= 3 captures + <= 3 quiets per node; unbounded in the number of calls)
 //@ harness: vk_c10_step_full_s4
 //@ functions: engine/search/move_picker.rs::MovePicker::next, engine/search/move_picker.rs::MovePicker::next_best_move
 //@ timeout: 2400
 //@ mem_gb: 8
 //@ note: inductive step of 'the stream is exactly the generated moves, each once', for a call that STARTS in stage Killer1: from ANY picker state of that stage satisfying the structural invariant (any cursor positions, list order, scores), any hash move (in the lists or none), ARBITRARY killers / counter move / previous move: next either hands out a generated move that had not been handed out and marks exactly that move, or returns None with every generated move handed out; the invariant is re-established; unreachable!() and out-of-range indices are unreachable.  The eleven stage obligations together are the step for every state.
-//@ assumes: callee contracts of generate_captures / generate_quiets (C01: duplicate-free lists, classes disjoint); ArrayVec modelled as a bounded vector of capacity 8; base case C10.step.initial
+//@ assumes: callee contracts of generate_captures / generate_quiets (C01: duplicate-free lists, classes disjoint); ArrayVec modelled as a bounded vector of capacity 6; base case C10.step.initial
 step_stage!(vk_c10_step_full_s4, 4, true);
 //@ obligation: C10.step.full.Killer2
-//@ domain: bounded(<= 4 captures + <= 4 quiets per node; unbounded in the number of calls)
+//@ domain: bounded(<= 3 captures + <= 3 quiets per node; unbounded in the number of calls)
 //@ harness: vk_c10_step_full_s5
 //@ functions: engine/search/move_picker.rs::MovePicker::next, engine/search/move_picker.rs::MovePicker::next_best_move
 //@ timeout: 2400
 //@ mem_gb: 8
 //@ note: inductive step of 'the stream is exactly the generated moves, each once', for a call that STARTS in stage Killer2: from ANY picker state of that stage satisfying the structural invariant (any cursor positions, list order, scores), any hash move (in the lists or none), ARBITRARY killers / counter move / previous move: next either hands out a generated move that had not been handed out and marks exactly that move, or returns None with every generated move handed out; the invariant is re-established; unreachable!() and out-of-range indices are unreachable.  The eleven stage obligations together are the step for every state.
-//@ assumes: callee contracts of generate_captures / generate_quiets (C01: duplicate-free lists, classes disjoint); ArrayVec modelled as a bounded vector of capacity 8; base case C10.step.initial
+//@ assumes: callee contracts of generate_captures / generate_quiets (C01: duplicate-free lists, classes disjoint); ArrayVec modelled as a bounded vector of capacity 6; base case C10.step.initial
 step_stage!(vk_c10_step_full_s5, 5, true);
 //@ obligation: C10.step.full.CounterMove
-//@ domain: bounded(<= 4 captures + <= 4 quiets per node; unbounded in the number of calls)
+//@ domain: bounded(<= 3 captures + <= 3 quiets per node; unbounded in the number of calls)
 //@ harness: vk_c10_step_full_s6
 //@ functions: engine/search/move_picker.rs::MovePicker::next, engine/search/move_picker.rs::MovePicker::next_best_move
 //@ timeout: 2400
 //@ mem_gb: 8
 //@ note: inductive step of 'the stream is exactly the generated moves, each once', for a call that STARTS in stage CounterMove: from ANY picker state of that stage satisfying the structural invariant (any cursor positions, list order, scores), any hash move (in the lists or none), ARBITRARY killers / counter move / previous move: next either hands out a generated move that had not been handed out and marks exactly that move, or returns None with every generated move handed out; the invariant is re-established; unreachable!() and out-of-range indices are unreachable.  The eleven stage obligations together are the step for every state.
-//@ assumes: callee contracts of generate_captures / generate_quiets (C01: duplicate-free lists, classes disjoint); ArrayVec modelled as a bounded vector of capacity 8; base case C10.step.initial
+//@ assumes: callee contracts of generate_captures / generate_quiets (C01: duplicate-free lists, classes disjoint); ArrayVec modelled as a bounded vector of capacity 6; base case C10.step.initial
 step_stage!(vk_c10_step_full_s6, 6, true);
 //@ obligation: C10.step.full.BadCaptures
-//@ domain: bounded(<= 4 captures + <= 4 quiets per node; unbounded in the number of calls)
+//@ domain: bounded(<= 3 captures + <= 3 quiets per node; unbounded in the number of calls)
 //@ harness: vk_c10_step_full_s7
 //@ functions: engine/search/move_picker.rs::MovePicker::next, engine/search/move_picker.rs::MovePicker::next_best_move
 //@ timeout: 2400
 //@ mem_gb: 8
 //@ note: inductive step of 'the stream is exactly the generated moves, each once', for a call that STARTS in stage BadCaptures: from ANY picker state of that stage satisfying the structural invariant (any cursor positions, list order, scores), any hash move (in the lists or none), ARBITRARY killers / counter move / previous move: next either hands out a generated move that had not been handed out and marks exactly that move, or returns None with every generated move handed out; the invariant is re-established; unreachable!() and out-of-range indices are unreachable.  The eleven stage obligations together are the step for every state.
-//@ assumes: callee contracts of generate_captures / generate_quiets (C01: duplicate-free lists, classes disjoint); ArrayVec modelled as a bounded vector of capacity 8; base case C10.step.initial
+//@ assumes: callee contracts of generate_captures / generate_quiets (C01: duplicate-free lists, classes disjoint); ArrayVec modelled as a bounded vector of capacity 6; base case C10.step.initial
 step_stage!(vk_c10_step_full_s7, 7, true);
 //@ obligation: C10.step.full.ScoreQuiets
-//@ domain: bounded(<= 4 captures + <= 4 quiets per node; unbounded in the number of calls)
+//@ domain: bounded(<= 3 captures + <= 3 quiets per node; unbounded in the number of calls)
 //@ harness: vk_c10_step_full_s8
 //@ functions: engine/search/move_picker.rs::MovePicker::next, engine/search/move_picker.rs::MovePicker::next_best_move
 //@ timeout: 2400
 //@ mem_gb: 8
 //@ note: inductive step of 'the stream is exactly the generated moves, each once', for a call that STARTS in stage ScoreQuiets: from ANY picker state of that stage satisfying the structural invariant (any cursor positions, list order, scores), any hash move (in the lists or none), ARBITRARY killers / counter move / previous move: next either hands out a generated move that had not been handed out and marks exactly that move, or returns None with every generated move handed out; the invariant is re-established; unreachable!() and out-of-range indices are unreachable.  The eleven stage obligations together are the step for every state.
-//@ assumes: callee contracts of generate_captures / generate_quiets (C01: duplicate-free lists, classes disjoint); ArrayVec modelled as a bounded vector of capacity 8; base case C10.step.initial
+//@ assumes: callee contracts of generate_captures / generate_quiets (C01: duplicate-free lists, classes disjoint); ArrayVec modelled as a bounded vector of capacity 6; base case C10.step.initial
 step_stage!(vk_c10_step_full_s8, 8, true);
 //@ obligation: C10.step.full.Quiets
-//@ domain: bounded(<= 4 captures + <= 4 quiets per node; unbounded in the number of calls)
+//@ domain: bounded(<= 3 captures + <= 3 quiets per node; unbounded in the number of calls)
 //@ harness: vk_c10_step_full_s9
 //@ functions: engine/search/move_picker.rs::MovePicker::next, engine/search/move_picker.rs::MovePicker::next_best_move
 //@ timeout: 2400
 //@ mem_gb: 8
 //@ note: inductive step of 'the stream is exactly the generated moves, each once', for a call that STARTS in stage Quiets: from ANY picker state of that stage satisfying the structural invariant (any cursor positions, list order, scores), any hash move (in the lists or none), ARBITRARY killers / counter move / previous move: next either hands out a generated move that had not been handed out and marks exactly that move, or returns None with every generated move handed out; the invariant is re-established; unreachable!() and out-of-range indices are unreachable.  The eleven stage obligations together are the step for every state.
-//@ assumes: callee contracts of generate_captures / generate_quiets (C01: duplicate-free lists, classes disjoint); ArrayVec modelled as a bounded vector of capacity 8; base case C10.step.initial
+//@ assumes: callee contracts of generate_captures / generate_quiets (C01: duplicate-free lists, classes disjoint); ArrayVec modelled as a bounded vector of capacity 6; base case C10.step.initial
 step_stage!(vk_c10_step_full_s9, 9, true);
 //@ obligation: C10.step.full.Done
-//@ domain: bounded(<= 4 captures + <= 4 quiets per node; unbounded in the number of calls)
+//@ domain: bounded(<= 3 captures + <= 3 quiets per node; unbounded in the number of calls)
 //@ harness: vk_c10_step_full_s10
 //@ functions: engine/search/move_picker.rs::MovePicker::next, engine/search/move_picker.rs::MovePicker::next_best_move
 //@ timeout: 2400
 //@ mem_gb: 8
 //@ note: inductive step of 'the stream is exactly the generated moves, each once', for a call that STARTS in stage Done: from ANY picker state of that stage satisfying the structural invariant (any cursor positions, list order, scores), any hash move (in the lists or none), ARBITRARY killers / counter move / previous move: next either hands out a generated move that had not been handed out and marks exactly that move, or returns None with every generated move handed out; the invariant is re-established; unreachable!() and out-of-range indices are unreachable.  The eleven stage obligations together are the step for every state.
-//@ assumes: callee contracts of generate_captures / generate_quiets (C01: duplicate-free lists, classes disjoint); ArrayVec modelled as a bounded vector of capacity 8; base case C10.step.initial
+//@ assumes: callee contracts of generate_captures / generate_quiets (C01: duplicate-free lists, classes disjoint); ArrayVec modelled as a bounded vector of capacity 6; base case C10.step.initial
 step_stage!(vk_c10_step_full_s10, 10, false);
 
 //@ obligation: C10.step.loud
-//@ domain: bounded(<= 4 captures per node; unbounded in the number of calls)
+//@ domain: bounded(<= 3 captures per node; unbounded in the number of calls)
 //@ functions: engine/search/move_picker.rs::MovePicker::next, engine/search/move_picker.rs::MovePicker::new_loud
 //@ timeout: 3000
 //@ mem_gb: 14
 //@ note: the same inductive step for the captures-only variant: exactly the generated capture-class moves, each once; the quiet generator is never called
 #[kani::proof]
-#[kani::unwind(10)]
+#[kani::unwind(8)]
 fn vk_c10_step_loud() {
     step(true);
     unsafe {
@@ -652,7 +652,7 @@ fn vk_c10_step_loud() {
 //@ mem_gb: 6
 //@ note: base case: a fresh picker (either constructor) satisfies the structural invariant and has yielded nothing
 #[kani::proof]
-#[kani::unwind(10)]
+#[kani::unwind(8)]
 fn vk_c10_step_initial() {
     let (nc, nq) = any_lists();
     let loud: bool = kani::any();
